@@ -135,7 +135,23 @@ def _service(calls):
         def boom(ctx, i):
             if i == 1:
                 raise Fault('Client.Custom', 'nope', detail={'k': 'v'})
+            if i == 3:
+                raise Fault('Client.EmptyDetail', 'empty detail', detail={})
+            if i == 4:
+                raise Fault('Client.NoString', '')
             raise RuntimeError('secret')
+
+        @rpc(Integer)
+        def boom_void(ctx, i):
+            raise Fault('Client.EmptyDetail', 'no return value either', detail={})
+
+        @rpc(Integer, _returns=[Integer, Unicode])
+        def ign2(ctx, i):
+            return Ignored(i)
+
+        @rpc(Integer, _returns=[Integer, Unicode])
+        def boom2(ctx, i):
+            raise Fault('Client.Two', 'two return values', detail={})
 
         @rpc(Integer, _returns=Integer)
         def ign(ctx, i):
@@ -169,7 +185,8 @@ CALLS = [('w0', (), {}), ('w1', (5,), {}), ('w1', (), {'i': 5}), ('w1', (0,), {}
          ('w3', (4,), {}), ('ob1', (3,), {}), ('ob1', (), {'i': 3}), ('bare', (), {'x': 1, 's': 'q'}),
          ('bare', (1, 'q'), {}), ('arr', (), {}), ('gen', (), {}), ('boom', (1,), {}), ('boom', (2,), {}),
          ('ign', (5,), {}), ('none_complex', (), {}), ('falsy', (1,), {}), ('bare0', (), {}), ('bare0arr', (), {}),
-         ('bare0gen', (), {})]
+         ('bare0gen', (), {}), ('boom', (3,), {}), ('boom', (4,), {}), ('boom_void', (1,), {}), ('boom2', (1,), {}),
+         ('ign2', (5,), {})]
 
 
 def norm(v):
@@ -233,19 +250,21 @@ def relational(c):
     out = c.run(getattr(server.service, name), *args, **kwargs)
     status, wire, d = wire_json(c, name, args, kwargs)
     n_out = len(d.out_message._type_info) if hasattr(d.out_message, '_type_info') else 1
-    if name == 'boom':
+    if name.startswith('boom'):
         c.check('null_raises_fault', out.raised and isinstance(out.exc, Fault), detail=repr(out))
+        c.check('wire_sends_a_fault', isinstance(wire, dict) and 'faultcode' in wire, detail=wire)
         if out.raised and isinstance(out.exc, Fault) and isinstance(wire, dict):
-            c.check('same_fault', (out.exc.faultcode, out.exc.faultstring, out.exc.detail) ==
-                    (wire.get('faultcode'), wire.get('faultstring'), wire.get('detail')), detail=(repr(out.exc), wire))
+            c.check('same_fault', (out.exc.faultcode, out.exc.faultstring, out.exc.detail or None) ==
+                    (wire.get('faultcode'), wire.get('faultstring'), wire.get('detail') or None), detail=(repr(out.exc), wire))
         return
     c.check('null_returns', out.returned, detail=repr(out))
     if not out.returned:
         return
     got = norm(out.value)
-    if name == 'ign':
+    if name in ('ign', 'ign2'):
         c.check('ignored_delivered_to_direct_caller', got == ('Ignored', [5]), detail=got)
-        c.check('ignored_is_empty_on_the_wire', wire in (None, [], {}, ''), detail=wire)
+        if name == 'ign':
+            c.check('ignored_is_empty_on_the_wire', wire in (None, [], {}, ''), detail=wire)
         return
     # decode the wire reply by the documented conventions (ignore_wrappers=True: bare value / list of values)
     if isinstance(wire, dict) and name != 'bare' and n_out > 1 and not isinstance(got, dict):
@@ -322,6 +341,10 @@ def _ign_service():
         def wrapped_complex(ctx, i):
             return Ignored(i)
 
+        @rpc(Integer, _returns=[Integer, Unicode])
+        def wrapped_two_values(ctx, i):
+            return Ignored(i)
+
         @rpc(Integer, _returns=Integer)
         def control(ctx, i):
             return i + 1
@@ -331,14 +354,14 @@ def _ign_service():
 def _mk_ignored(wire):
     @obligation('C18.ignored.%s' % wire, targets=['spyne.server._base:ServerBase.get_out_object',
                                                  'spyne.server.null:_FunctionCall.__call__'],
-                bounded="6 methods returning Ignored: wrapped / out_bare / bare body styles x primitive / complex return type",
+                bounded="7 methods returning Ignored: wrapped / out_bare / bare body styles x primitive / complex / two return values",
                 desc="an Ignored return is delivered to the direct (NullServer) caller as it is, and the same call over the "
                      "wire is answered normally (200) with an empty result -- for every body style and return type")
     def ob(c):
         from spyne.protocol.xml import XmlDocument
         from spyne.protocol.soap import Soap11
         name = c.choose(['wrapped', 'out_bare_primitive', 'out_bare_complex', 'bare_complex', 'bare_primitive',
-                         'wrapped_complex', 'control'], 'method')
+                         'wrapped_complex', 'wrapped_two_values', 'control'], 'method')
         ISvc, Pair = _ign_service()
         P = {'json': JsonDocument, 'xml': XmlDocument, 'soap11': Soap11}[wire]
         app = Application([ISvc], TNS, in_protocol=P(), out_protocol=P())
